@@ -862,7 +862,7 @@ static void gen_expr(Node *node) {
     Member *mem = node->member;
     if (mem->is_bitfield) {
       println("  shl $%d, %%rax", 64 - mem->bit_width - mem->bit_offset);
-      if (mem->ty->is_unsigned)
+      if (mem->ty->is_unsigned || mem->ty->kind == TY_BOOL)
         println("  shr $%d, %%rax", 64 - mem->bit_width);
       else
         println("  sar $%d, %%rax", 64 - mem->bit_width);
@@ -907,7 +907,7 @@ static void gen_expr(Node *node) {
       // i.e. the right-hand side truncated to the width of the field.
       println("  mov %%r8, %%rax");
       println("  shl $%d, %%rax", 64 - mem->bit_width);
-      if (mem->ty->is_unsigned)
+      if (mem->ty->is_unsigned || mem->ty->kind == TY_BOOL)
         println("  shr $%d, %%rax", 64 - mem->bit_width);
       else
         println("  sar $%d, %%rax", 64 - mem->bit_width);
